@@ -166,6 +166,13 @@ var userHdrNames = []string{"Accept", "accept", "X-Custom-1", "x-cUsToM-1", "X-C
 
 func genBody(g *hx.Gen, tier string, allowBig bool) []byte {
 	var n int
+	if allowBig {
+		n = (1 << 20) + g.Intn(2<<20)
+		if tier == "thorough" && g.Chance(0.3) {
+			n = (4 + g.Intn(5)) << 20
+		}
+		return g.Bytes(n)
+	}
 	switch g.Intn(12) {
 	case 0, 1:
 		n = 0
@@ -209,6 +216,9 @@ type reqGen struct {
 
 func genRequest(g *hx.Gen, rt *routeSpec, tier string, allowBig bool) *reqGen {
 	r := &userReq{method: methods[g.Intn(len(methods))]}
+	if allowBig {
+		r.method = g.Pick([]string{"POST", "PUT", "PATCH"})
+	}
 	path := genPath(g, rt.location)
 	hasq, q := genQuery(g)
 	target := path
@@ -348,6 +358,18 @@ func genResponse(g *hx.Gen, method, tier string, allowBig bool) *scripted {
 		s.body = genBody(g, tier, allowBig)
 	}
 	s.framing = g.Pick([]string{"cl", "cl", "chunked", "chunked", "close"})
+	if s.framing == "close" {
+		// the backend announces "Connection: close"; net/http's Transport then deletes every Connection value
+		// of the response (transfer.go shouldClose), so a scripted Connection header listing other tokens
+		// would not be honoured by the library: not combined
+		var hs []hdr
+		for _, kv := range s.hdrs {
+			if !strings.EqualFold(kv[0], "Connection") {
+				hs = append(hs, kv)
+			}
+		}
+		s.hdrs = hs
+	}
 	s.chunks = genChunks(g)
 	return s
 }
@@ -450,6 +472,26 @@ func coqScripted(s *scripted, method string) string {
 		body = nil
 	}
 	return fmt.Sprintf("{| hs_status := %d; hs_hdrs := %s; hs_body := %s |}", s.status, coqPairs(s.hdrs), S(bodyID(body)))
+}
+
+func coqGotFor(r *userResp, s *scripted) string {
+	backendDate := false
+	for _, kv := range s.hdrs {
+		if strings.EqualFold(kv[0], "Date") {
+			backendDate = true
+		}
+	}
+	if backendDate {
+		return coqGot(r)
+	}
+	c := *r
+	c.hdrs = nil
+	for _, kv := range r.hdrs {
+		if !strings.EqualFold(kv[0], "Date") {
+			c.hdrs = append(c.hdrs, kv)
+		}
+	}
+	return coqGot(&c)
 }
 
 func coqGot(r *userResp) string {
